@@ -80,13 +80,15 @@ impl PolicyClient for NoClient {
     async fn msg(&self, _to: usize, _r: MpcMsg) -> Result<(), NoClientErr> {
         Ok(())
     }
-    async fn output(&self, to: url::Url, r: Result<Literal, OutputError>) -> Result<(), NoClientErr> {
+    // not an `async fn`: the returned future must not own the arguments (the drop glue of a
+    // future that holds a Result<Literal, OutputError> reaches Box<dyn Error>: measured 400 s vs 10 s)
+    fn output(&self, to: url::Url, r: Result<Literal, OutputError>) -> impl std::future::Future<Output = Result<(), NoClientErr>> + Send {
         unsafe {
             ENV_OUTPUTS += 1;
             ENV_OUTPUT_WAS_ERR = r.is_err();
         }
         std::mem::forget((to, r));
-        Ok(())
+        std::future::ready(Ok(()))
     }
 }
 
@@ -310,7 +312,8 @@ pub(crate) const CMD_STOP: u8 = 3;
 pub(crate) const CMD_CANCEL: u8 = 4;
 pub(crate) const CMD_OTHER: u8 = 9;
 impl EnvCmdTx {
-    async fn send(&self, cmd: PolicyCmd) -> Result<(), EnvSendErr> {
+    // not an `async fn` for the same reason as NoClient::output
+    fn send(&self, cmd: PolicyCmd) -> std::future::Ready<Result<(), EnvSendErr>> {
         let code = match &cmd {
             PolicyCmd::Run(..) => CMD_RUN,
             PolicyCmd::InternalConstsSent => CMD_INTERNAL_CONSTS_SENT,
@@ -323,7 +326,7 @@ impl EnvCmdTx {
             ENV_CMDS += 1;
         }
         std::mem::forget(cmd);
-        Ok(())
+        std::future::ready(Ok(()))
     }
 }
 
@@ -811,7 +814,7 @@ fn leader_rpcs(has_out: bool) {
 }
 
 #[kani::proof]
-#[kani::unwind(12)]
+#[kani::unwind(5)]
 #[kani::stub(std::fmt::format, no_format)]
 #[kani::stub(std::collections::hash_map::RandomState::new, env_random_state)]
 fn c17_leader_rpc_failures_without_output_destination() {
@@ -822,7 +825,7 @@ fn c17_leader_rpc_failures_without_output_destination() {
 }
 
 #[kani::proof]
-#[kani::unwind(12)]
+#[kani::unwind(5)]
 #[kani::stub(std::fmt::format, no_format)]
 #[kani::stub(std::collections::hash_map::RandomState::new, env_random_state)]
 fn c17_leader_rpc_failures_with_output_destination() {
@@ -855,7 +858,7 @@ fn consts_task(has_out: bool) {
 }
 
 #[kani::proof]
-#[kani::unwind(12)]
+#[kani::unwind(5)]
 #[kani::stub(std::fmt::format, no_format)]
 #[kani::stub(std::collections::hash_map::RandomState::new, env_random_state)]
 fn c17_consts_rpc_failure_without_output_destination() {
@@ -865,7 +868,7 @@ fn c17_consts_rpc_failure_without_output_destination() {
 }
 
 #[kani::proof]
-#[kani::unwind(12)]
+#[kani::unwind(5)]
 #[kani::stub(std::fmt::format, no_format)]
 #[kani::stub(std::collections::hash_map::RandomState::new, env_random_state)]
 fn c17_consts_rpc_failure_with_output_destination() {
@@ -1000,7 +1003,7 @@ fn c16_ill_typed_program_is_refused_first() {
 /// C16 - the leader's side: when a follower refuses the validate request, the leader's schedule
 /// call ends with ValidateFailed, the policy ends, no run is requested (no MPC traffic can start).
 #[kani::proof]
-#[kani::unwind(12)]
+#[kani::unwind(5)]
 #[kani::stub(std::fmt::format, no_format)]
 #[kani::stub(std::collections::hash_map::RandomState::new, env_random_state)]
 fn c16_leader_ends_when_a_follower_refuses() {
@@ -1108,3 +1111,40 @@ stray_in_state!(c14_validate_stray_in_sending_consts_completed, validate, state_
 stray_in_state!(c14_validate_stray_in_running, validate, state_running, true);
 stray_in_state!(c14_consts_stray_in_awaiting_validation, consts, state_awaiting_validation, false);
 stray_in_state!(c14_consts_stray_in_running, consts, state_running, true);
+
+// ------------------------------------------------------------------------------------------ result delivery (C13)
+
+/// stand-in for the compiled Garble program: decoding the output bits is not the subject
+pub(crate) struct EnvCompiled;
+impl EnvCompiled {
+    fn parse_output(&self, _bits: &[bool]) -> Result<Literal, garble_lang::eval::EvalError> {
+        Ok(Literal::True)
+    }
+}
+
+/// C13 - the MPC task behind polytune::mpc(): a party with an output destination is sent exactly
+/// one notification - the result if mpc() returned output bits, the error if it failed - a
+/// party without one is sent nothing, and in every case the task then tells the actor to stop
+/// (which ends the state machine and returns a leader's permit).
+macro_rules! mpc_result {
+    ($name:ident, $has_out:expr, $output:expr, $outputs:expr, $is_err:expr) => {
+        #[kani::proof]
+        #[kani::unwind(5)]
+        #[kani::stub(std::fmt::format, no_format)]
+        #[kani::stub(std::collections::hash_map::RandomState::new, env_random_state)]
+        fn $name() {
+            reset_answers();
+            let channel = Channel { client: NoClient, party: 0, receivers: Vec::new() };
+            seg_sc_mpc_result(policy_with_output($has_out), channel, $output, EnvCompiled, EnvCmdTx);
+            let (outputs, out_err, cmd, cmds) = unsafe { (ENV_OUTPUTS, ENV_OUTPUT_WAS_ERR, ENV_CMD, ENV_CMDS) };
+            assert!(outputs == $outputs, "C13:mpc-task:output-destination-is-sent-exactly-one-notification-if-there-is-one-to-send");
+            assert!(outputs == 0 || out_err == $is_err, "C13:mpc-task:the-notification-is-the-result-on-success-and-the-error-on-failure");
+            assert!(cmds == 1 && cmd == CMD_STOP, "C13:mpc-task:the-state-machine-is-told-to-stop-exactly-once");
+            kani::cover!(true, "reachable");
+        }
+    };
+}
+mpc_result!(c13_mpc_result_is_delivered_once, true, Ok(vec![true]), 1, false);
+mpc_result!(c13_mpc_error_is_delivered_once, true, Err(polytune::Error::EmptyMsg), 1, true);
+mpc_result!(c13_mpc_result_without_destination, false, Ok(vec![true]), 0, false);
+mpc_result!(c13_mpc_error_without_destination, false, Err(polytune::Error::EmptyMsg), 0, true);
